@@ -111,9 +111,10 @@ def file_level(ctx: Ctx, cs, base):
             ctx.nontriv(cs, vname)
         # dump == dumps, into existing and missing nested directories, several option sets
         optsets = [{}, {'encoding': kp.Encoding.eKern}, {'spine_types': ['**kern'], 'encoding': kp.Encoding.bEkern},
-                   {'exclude': {kp.TokenCategory.DECORATION}}]
+                   {'exclude': {kp.TokenCategory.DECORATION}}, {'spine_types': ['**mens']}, {'spine_ids': []},
+                   {'include': {kp.TokenCategory.LINE_BREAK}}, {'from_measure': 1, 'to_measure': 1}]
         o = optsets[rng.randrange(len(optsets))]
-        for sub in ('', 'new/nested/dir'):
+        for sub, o in (('', o), ('new/nested/dir', o), ('', optsets[4 + rng.randrange(3)])):
             ctx.ev()
             ctx.mon('dump_vs_dumps')
             s, err = kpx.dumps(d1, **o)
@@ -205,6 +206,29 @@ def cli_level(ctx: Ctx, cs, base, real=False, strace=False):
         ctx.violation('cli-round-trip', 'ekern -> kern -> ekern does not return the original ekern', case)
     else:
         ctx.nontriv(cs, 'roundtrip', real)
+    # 2b. the reverse converter on inputs with and without final newline (expected: exactly get_kern_from_ekern(text))
+    for nm, src in (('nofinal', expect.rstrip('\n')), ('final', expect), ('empty', '')):
+        fin = os.path.join(root, 'single', f'raw-{nm}.ekrn')
+        fout = os.path.join(root, 'single', f'raw-{nm}.krn')
+        write(fin, src)
+        run(['--ekern2kern', '--input_path', fin, '--verbose', '0'])
+        ctx.ev()
+        ctx.mon('cli_runs')
+        if not os.path.exists(fout) or read(fout) != kp.get_kern_from_ekern(src):
+            ctx.violation('cli-ekern2kern', f'ekern2kern on an input {nm} ({"without" if nm == "nofinal" else "with"} final newline): output '
+                          f'{"missing" if not os.path.exists(fout) else repr(read(fout)[-20:])} differs from get_kern_from_ekern(text) '
+                          f'{kp.get_kern_from_ekern(src)[-20:]!r}', case)
+    # 2c. a file without any **kern spine: the API result is the empty string
+    fnk = os.path.join(root, 'single', 'nokern.krn')
+    write(fnk, '**text\nla\n*-\n')
+    run(['--kern2ekern', '--input_path', fnk, '--verbose', '0'])
+    ctx.ev()
+    ctx.mon('cli_runs')
+    exp_nk, _ = api_kern2ekern('**text\nla\n*-\n')
+    onk = os.path.join(root, 'single', 'nokern.ekrn')
+    if not os.path.exists(onk) or read(onk) != exp_nk:
+        ctx.violation('cli-kern2ekern', f'file without **kern spine: output {"missing" if not os.path.exists(onk) else repr(read(onk))}, '
+                      f'API gives {exp_nk!r}', case)
     # 3. directory mode
     droot = os.path.join(root, 'tree')
     # a second score, so that files with the same name in different directories have different contents
